@@ -257,6 +257,14 @@ static void pick_next(bool meCanContinue)
   VThread* me = self;
   for(;;)
   {
+    // the scenario's main thread has returned and only threads the scenario declared to be the library's own background threads are
+    // left: that is the end of the process, whatever those threads are doing (an idle worker of the global pool may be polling)
+    if(T[0].st == T_FINISHED)
+    {
+      bool onlyDaemons = true;
+      for(int i = 1; i < rt.nthreads; ++i) if(T[i].st != T_FINISHED && T[i].st != T_UNUSED && !T[i].daemon) onlyDaemons = false;
+      if(onlyDaemons) finish_execution(VF_OK, "", "");
+    }
     int cand[2 * MAXT + 4]; int kind[2 * MAXT + 4]; int n = 0;   // kind 0 = run thread, 1 = spurious wake, 2 = timeout fires
     // a blocked caller whose own condition has become true (e.g. its timeout fired while everybody else is blocked) can go on
     bool meUnblocked = !meCanContinue && me->st == T_BLOCKED && enabled(me);
@@ -329,7 +337,20 @@ static void pick_next(bool meCanContinue)
     int offered = n;
     if(nThreads == 1 && T[cand[0]].yielding)
     { // livelock detection: only spinners have been able to run for many consecutive decisions
-      if(++rt.allYieldRounds > vf_config.livelockRounds) finish_execution(VF_VIOLATION, "livelock", "only spinning/yielding threads can run and none makes progress");
+      if(++rt.allYieldRounds > vf_config.livelockRounds)
+      { // real time passes while a thread polls: before this is called a livelock, the earliest pending timeout fires
+        int best = -1;
+        for(int i = 0; i < rt.nthreads; ++i) if(T[i].st == T_BLOCKED && T[i].deadline >= 0 && T[i].wake != W_TIMEOUT && !(T[i].bk == B_COND && T[i].condWoken) && (best < 0 || T[i].deadline < T[best].deadline)) best = i;
+        if(best >= 0)
+        {
+          if(rt.clock < T[best].deadline) rt.clock = T[best].deadline;
+          T[best].wake = W_TIMEOUT; if(T[best].bk == B_COND) T[best].condWoken = true;
+          trace("  [time] only polling threads can run; clock advances to %lld: timeout of thread %d fires", rt.clock, best);
+          rt.allYieldRounds = 0;
+          continue;
+        }
+        finish_execution(VF_VIOLATION, "livelock", "only spinning/yielding threads can run and none makes progress");
+      }
     }
     else rt.allYieldRounds = 0;
     int c = rt_choose(offered, "schedule");
